@@ -1,7 +1,22 @@
 import props
 
+
+
+def runs(tier, seed, replay):
+    if replay:
+        return props.replay_run(replay)
+    n = 2500 if tier == "thorough" else 150
+    return [
+        {"args": ["c02", "--seed", str(seed), "--tier", tier, "--count", str(n)]},
+        # repository corpus (VP9, X264, sandwich, small_ex; thorough: axTLS, auto1 d4/c2d, busybox, aim711):
+        # model = implementation where the vector is small enough, metamorphic laws
+        # count(A) = count(A,x) + count(A,-x), permutation/duplication/padding past 20 literals, sat = (count > 0)
+        {"args": ["corpus", "--seed", str(seed), "--tier", tier, "--count", "0"]},
+    ]
+
+
 CONFIG = {
-    "runs": props.simple("c02", 150, 2500),
+    "runs": runs,
     "status": "proved (full): C02_execute_query_correct -- for every WFQ circuit (WF + unique leaves + all nodes reachable "
               "+ nonzero literals, all established by check_wf), every in-range literal list A (any length/order/repetition, "
               "contradictory, core and dead literals) and every Clean scratch state (markers false, md empty, temps/pds arbitrary), "
